@@ -1,5 +1,6 @@
 # configuration of ./check C07 (see checklib/props.py)
-PROP = {'level': 'proof',
+PROP = {'shrink_rounds': 8, 'shrink_candidates': 48,
+ 'level': 'proof',
  'rule': 'Schedules of the real PacketServer at hook granularity: Serve parked after its registration region (hook serve.registered), datagram goroutines parked in the SecretSource and in the '
          'handler, Shutdown parked before its select (hook shutdown.beforeWait), read errors and context cancellation released by the harness. Exhaustive interleavings of {Serve, Shutdown} and '
          '{Serve, datagram, Shutdown}; sampled interleavings of up to 2 Serve calls, 3 datagrams, 2 Shutdown calls (one with a cancelled context), a late Serve; every scenario ends with '
